@@ -120,7 +120,7 @@ check("C04", "PVM",
            "part D: `ecalli id; trap` through Psi_H with every limit 1..14 and ids that are known, unknown or defined in the other table only: with fewer than 10 units left after the ecalli the invocation ends out-of-gas without any effect and the gas it reports as used is the whole limit; with exactly 10 the call is paid and 0 is left. distinct_nontrivial = distinct programs with >= 2 steps + distinct (program, wrapper) pairs + host-call sequences",
       technique="reference-model monitor at every gas limit 0..S+1 (gas-stepping) + invocation-result monitor for Psi_M with limits up to 2^64-1 + charge monitor wrapped around the real host-call tables",
       level_text="Every prefix of every generated execution is checked by running it with each smaller gas limit; reported usage is checked up to the largest representable limit. Held = no divergence on what was explored.",
-      note=PVM_NOTE, shards=(8, 16), floors={"any": {"limit_runs": 50000, "oog_strictly_inside": 20000, "psim_runs": 8000, "psim_limits_ge_2^63": 500, "calls": 50000, "transfer_calls_ok": 300, "transfer_calls_oog": 100, "transfer_calls_with_l_ge_2^63": 100, "host_calls_the_gas_could_not_pay_for": 700, "host_calls_paid_with_the_last_units": 50, "host_calls_the_gas_could_just_pay_for": 150}})
+      note=PVM_NOTE, shards=(8, 16), floors={"any": {"limit_runs": 50000, "oog_strictly_inside": 20000, "psim_runs": 8000, "psim_limits_ge_2^63": 500, "calls": 50000, "transfer_calls_ok": 300, "transfer_calls_oog": 100, "transfer_calls_with_l_ge_2^63": 100, "limit_runs_block": 20000, "limit_runs_step": 20000, "host_calls_the_gas_could_not_pay_for": 700, "host_calls_paid_with_the_last_units": 50, "host_calls_the_gas_could_just_pay_for": 150}})
 
 check("C05", "PVM",
       rule="part A: straight-line programs of loads/stores of every width and addressing form (direct, immediate, indirect, immediate-indirect) aimed at +-10 bytes around the edges of read-write, read-only and unmapped pages, 2^16 and the top of the address space; the block engine is run with gas 0,1,2,... and every pair of consecutive states is checked against a shadow page map: "
@@ -139,7 +139,7 @@ check("C03", "PVM",
       technique="crash / allocation / progress monitors over mutated program blobs in isolated child processes (input logged before every call) + Go native coverage-guided fuzzing of the same entry points with a panic monitor",
       level_text="Every call on untrusted bytes is watched for Go panics, process death, allocation beyond the declared bound and non-termination; held = none observed on what was explored (open finding C03-F2 is re-confirmed by a dedicated trigger case).",
       note="The 60 s bound is the only wall-clock verdict (10^4 instructions take microseconds). Psi_I is not driven (fixed 50M gas). The structured generator is seeded by VERIF_SEED; the native-fuzz part (Go's coverage-guided fuzzer over the same six targets, seeded with valid programs, bounded by an execution count: 25 000 quick, 3 000 000 thorough) is not seedable and its executions differ from run to run — its oracle (no Go panic) does not.",
-      shards=(8, 16), floors={"any": {"calls_DeBlobProgramCode": 3000, "calls_Psi_M": 3000, "calls_Psi_A": 3000, "calls_RefineInvoke": 3000, "calls_machine+invoke": 3000, "calls_SingleInitializer": 3000, "native_fuzz_execs": 20000, "runs_from_arbitrary_registers_block-engine": 8000, "runs_from_arbitrary_registers_step-engine": 8000}},
+      shards=(8, 16), floors={"any": {"calls_DeBlobProgramCode": 3000, "calls_Psi_M": 3000, "calls_Psi_A": 3000, "calls_RefineInvoke": 3000, "calls_machine+invoke": 3000, "calls_SingleInitializer": 3000, "native_fuzz_execs": 20000, "runs_from_arbitrary_registers_block-engine": 8000, "runs_from_arbitrary_registers_step-engine": 8000, "headers_cut_inside_a_natural_number": 70}},
       extra_parts=[{"name": "nativefuzz", "pkg": "PVM", "fuzz": "FuzzVerifC03", "fuzz_execs": {"quick": 25000, "thorough": 3000000}, "timeout": {"quick": 600, "thorough": 7200}}],
       timeout=(1200, 7200))
 
@@ -262,7 +262,7 @@ check("C14", "internal/zzverif/codec",
       technique="crash and allocation monitors over mutated encodings and frames in isolated child processes (input logged before every call) + Go native coverage-guided fuzzing of all decoders and the frame reader with the same monitors",
       level_text="Every decode of untrusted bytes is watched for Go panics, process death and allocation beyond a constant multiple of the input; held = none observed on what was explored.",
       note=CODEC_NOTE + " The allocation constant (4096 bytes per input byte + 1 MiB) is far above the largest element struct; a decoder that allocates from a length prefix before reading exceeds it by orders of magnitude.",
-      shards=(8, 16), floors={"any": {"decodes_watched": 50000, "frames_watched": 10000, "frames_accepted": 1000, "native_fuzz_execs": 20000}}, mem_gb=6,
+      shards=(8, 16), floors={"any": {"decodes_watched": 50000, "frames_watched": 10000, "frames_accepted": 1000, "payload_decodes_on_exact_capacity_buffers": 50000, "native_fuzz_execs": 20000}}, mem_gb=6,
       extra_parts=[{"name": "nativefuzz", "pkg": "internal/zzverif/codec", "fuzz": "FuzzVerifC14", "fuzz_execs": {"quick": 30000, "thorough": 5000000}, "timeout": {"quick": 600, "thorough": 7200}, "parallel": 4}],
       assumptions=[STANDIN_VRF])
 
